@@ -40,9 +40,58 @@ theorem withNoise_cross (L : Layout) (n : Nat) (h : L.dn = 0) :
   simp [Layout.withNoise, h] at this ⊢
   omega
 
-/-- UKFCorrection::correctStep + getLikelihood on the supported part of the valid space. -/
-theorem ukfCorrect_safe (additive : Bool) (I : Layout) (K : Nat) (C : Layout) (cK : Nat) (M : MMod)
-    (hv : ukfValid additive I K C cK M) (hs : ukfSupported I M) : (ukfCorrect additive I K C cK M).Safe := by
+/-- the transform UKFCorrection performs, under the documented shapes -/
+theorem ukfUT_ok (additive : Bool) (I : Layout) (K : Nat) (M : MMod) (hK : 1 ≤ K)
+    (hIn : I.dn = 0) (hId : 1 ≤ I.dcov) (hLin : M.Lin.noiseless = I) (hOn : M.O.dn = 0) (hp : M.prows = M.O.dim) (hdc : M.dcols = 0)
+    (hrr : if additive then M.rr = M.O.dcov else M.Lin.dn = M.rr) :
+    (ukfUT additive I K M).Safe ∧
+    (ukfUT additive I K M).val = if M.pvalid then ⟨true, M.O, K, ⟨I.dcov, M.O.dcov * K⟩⟩ else UTRes.failed := by
+  have hnl := Layout.noiseless_dcov M.Lin
+  rw [hLin] at hnl
+  unfold ukfUT
+  cases additive with
+  | true =>
+    simp only [if_true] at hrr ⊢
+    have hw : utWeightSize M.Lin.noiseless.dcov = 2 * I.dcov + 1 := by rw [hLin]; simp [utWeightSize]
+    refine ⟨utMeasAdditive_safe I K _ M hId hw hOn hp hdc hrr, ?_⟩
+    rw [utMeasAdditive_val, hIn]; simp
+  | false =>
+    simp only [Bool.false_eq_true, if_false] at hrr ⊢
+    obtain ⟨c1, c2⟩ := withNoise_cross I M.rr hIn
+    have hst : (⟨K, I, I.dim, I.dcov, I.meanS K, I.covS K, K⟩ : GMStore).wf := by simp [GMStore.wf, Layout.meanS, Layout.covS]
+    have hau := gmAugment_ok ⟨K, I, I.dim, I.dcov, I.meanS K, I.covS K, K⟩ ⟨M.rr, M.rr⟩ hst hK
+    have haL : (gmAugment ⟨K, I, I.dim, I.dcov, I.meanS K, I.covS K, K⟩ ⟨M.rr, M.rr⟩).val.1.L = I.withNoise M.rr := by
+      rw [hau.2.2.2.1]; simp
+    have hw : utWeightSize M.Lin.dcov = 2 * (I.withNoise M.rr).dcov + 1 := by rw [c2, ← hnl, hrr]; simp [utWeightSize]
+    have hu := utMeasGeneric_safe (I.withNoise M.rr) K _ M (by omega) hw hOn hp hdc
+    have huv := utMeasGeneric_val (I.withNoise M.rr) K (utWeightSize M.Lin.dcov) M
+    simp only [safe_bind, val_bind, hau.1, haL, hu, huv, true_and, c1, and_self]
+
+theorem ukfUpdates_safe (I : Layout) (K : Nat) (M : MMod) (fI : I.dim = I.dcov) (fO : M.O.dim = M.O.dcov) (hir : M.irows = M.O.dcov) :
+    (ukfUpdates I K I K M ⟨true, M.O, K, ⟨I.dcov, M.O.dcov * K⟩⟩ ⟨M.irows, K⟩).Safe := by
+  simp only [ukfUpdates, safe_forRange, safe_bind, val_bind]
+  intro i hi
+  have b := mul_block_le M.O.dcov i K hi
+  refine ⟨?_, ?_, ?_⟩
+  · simp [fO]; omega
+  · simp [gmCov, Layout.covS]; omega
+  · apply kalmanUpdate_safe _ I K _ _ _ i hi fI <;> simp [gmCov, Layout.covS, fO, hir]
+
+/-- what `getLikelihood()` needs of the members: no innovations, or innovations matching the stored predicted measurement -/
+def UKFMem.ok (M : MMod) (mem : UKFMem) : Prop :=
+  mem.inn = ⟨0, 0⟩ ∨ (mem.inn.r = M.O.dcov ∧ mem.inn.c ≤ mem.predK ∧ mem.predO = M.O)
+
+theorem ukfLik_safe (M : MMod) (mem : UKFMem) (h : mem.ok M) : (ukfLik mem).Safe := by
+  unfold ukfLik
+  rcases h with h | ⟨h1, h2, h3⟩
+  · unfold gaussLikelihood; simp [h]
+  · rw [h3]; exact gaussLikelihood_safe _ _ _ _ h1 h2
+
+/-- one correction on an object in ANY state (members left by earlier calls): consistent, and it leaves the members such
+    that `getLikelihood()` is consistent too -/
+theorem ukfStep_ok (additive : Bool) (mem : UKFMem) (I : Layout) (K : Nat) (C : Layout) (cK : Nat) (M : MMod)
+    (hv : ukfValid additive I K C cK M) (hs : ukfSupported I M) :
+    (ukfStep additive mem I K C cK M).Safe ∧ (ukfStep additive mem I K C cK M).val.1.ok M := by
   obtain ⟨⟨hK, hIn, hId, hC, hcK, hLin, hOn, hOd, hp, hdc, hy⟩, hir, hrr⟩ := hv
   obtain ⟨hsI, hsO⟩ := hs
   have hC' := hC.symm
@@ -50,61 +99,29 @@ theorem ukfCorrect_safe (additive : Bool) (I : Layout) (K : Nat) (C : Layout) (c
   subst hC' hcK'
   have fI := Layout.flat I hsI
   have fO := Layout.flat M.O hsO
-  have hnl := Layout.noiseless_dcov M.Lin
-  rw [hLin] at hnl
-  unfold ukfCorrect
+  obtain ⟨hu, huv⟩ := ukfUT_ok additive I K M hK hIn hId hLin hOn hp hdc hrr
+  unfold ukfStep
   cases hmv : M.mvalid with
-  | false => simp [corrCopy]
+  | false => simp [UKFMem.ok]
   | true =>
-    simp only [Bool.not_true, Bool.false_eq_true, if_false, safe_bind]
-    cases additive with
+    simp only [Bool.not_true, Bool.false_eq_true, if_false, safe_bind, val_bind, hu, huv, true_and]
+    cases hpv : M.pvalid with
+    | false => simp [UTRes.failed, UKFMem.ok]
     | true =>
-      simp only [if_true] at hrr ⊢
-      have hw : utWeightSize M.Lin.noiseless.dcov = 2 * I.dcov + 1 := by rw [hLin]; simp [utWeightSize]
-      have hu := utMeasAdditive_safe I K _ M hId hw hOn hp hdc hrr
-      have huv := utMeasAdditive_val I K (utWeightSize M.Lin.noiseless.dcov) M
-      simp only [hu, huv, true_and]
-      cases hpv : M.pvalid with
-      | false => simp [UTRes.failed, corrCopy]
+      cases hiv : M.ivalid with
+      | false => simp [UKFMem.ok]
       | true =>
-        cases hiv : M.ivalid with
-        | false => simp [corrCopy]
-        | true =>
-          simp only [if_true, Bool.not_true, Bool.false_eq_true, if_false, safe_bind, safe_pure, and_true, safe_forRange]
-          refine ⟨?_, ?_⟩
-          · intro i hi
-            have b := mul_block_le M.O.dcov i K hi
-            refine ⟨?_, ?_, ?_⟩
-            · simp [fO]; omega
-            · simp [gmCov, Layout.covS]; omega
-            · apply kalmanUpdate_safe _ I K _ _ _ i hi fI <;> simp [gmCov, Layout.covS, hIn, fO, hir]
-          · exact gaussLikelihood_safe _ _ _ _ (by simp [hir]) (by simp)
-    | false =>
-      simp only [Bool.false_eq_true, if_false] at hrr ⊢
-      obtain ⟨c1, c2⟩ := withNoise_cross I M.rr hIn
-      have hst : (⟨K, I, I.dim, I.dcov, I.meanS K, I.covS K, K⟩ : GMStore).wf := by simp [GMStore.wf, Layout.meanS, Layout.covS]
-      have hau := gmAugment_ok ⟨K, I, I.dim, I.dcov, I.meanS K, I.covS K, K⟩ ⟨M.rr, M.rr⟩ hst hK
-      have haL : (gmAugment ⟨K, I, I.dim, I.dcov, I.meanS K, I.covS K, K⟩ ⟨M.rr, M.rr⟩).val.1.L = I.withNoise M.rr := by
-        rw [hau.2.2.2.1]; simp
-      have hw : utWeightSize M.Lin.dcov = 2 * (I.withNoise M.rr).dcov + 1 := by rw [c2, ← hnl, hrr]; simp [utWeightSize]
-      have hu := utMeasGeneric_safe (I.withNoise M.rr) K _ M (by omega) hw hOn hp hdc
-      have huv := utMeasGeneric_val (I.withNoise M.rr) K (utWeightSize M.Lin.dcov) M
-      simp only [safe_bind, val_bind, hau.1, haL, hu, huv, true_and]
-      cases hpv : M.pvalid with
-      | false => simp [UTRes.failed, corrCopy]
-      | true =>
-        cases hiv : M.ivalid with
-        | false => simp [corrCopy]
-        | true =>
-          simp only [if_true, Bool.not_true, Bool.false_eq_true, if_false, safe_bind, safe_pure, and_true, safe_forRange]
-          refine ⟨?_, ?_⟩
-          · intro i hi
-            have b := mul_block_le M.O.dcov i K hi
-            refine ⟨?_, ?_, ?_⟩
-            · simp [fO]; omega
-            · simp [gmCov, Layout.covS]; omega
-            · apply kalmanUpdate_safe _ I K _ _ _ i hi fI <;> simp [gmCov, Layout.covS, c1, fO, hir]
-          · exact gaussLikelihood_safe _ _ _ _ (by simp [hir]) (by simp)
+        simp only [if_true, Bool.not_true, Bool.false_eq_true, if_false, safe_bind, val_bind, safe_pure, val_pure, and_true]
+        refine ⟨ukfUpdates_safe I K M fI fO hir, Or.inr ?_⟩
+        simp [hir]
+
+/-- UKFCorrection::correctStep + getLikelihood on the supported part of the valid space. -/
+theorem ukfCorrect_safe (additive : Bool) (I : Layout) (K : Nat) (C : Layout) (cK : Nat) (M : MMod)
+    (hv : ukfValid additive I K C cK M) (hs : ukfSupported I M) : (ukfCorrect additive I K C cK M).Safe := by
+  obtain ⟨h1, h2⟩ := ukfStep_ok additive UKFMem.init I K C cK M hv hs
+  unfold ukfCorrect
+  simp only [safe_bind, val_bind, safe_pure, and_true]
+  exact ⟨h1, ukfLik_safe M _ h2⟩
 
 theorem linO (hm : Nat) : (Layout.mk hm 0 false 0).dcov = hm ∧ (Layout.mk hm 0 false 0).dim = hm := by
   simp [Layout.dcov, Layout.dim]
@@ -189,9 +206,14 @@ theorem Layout.parts_le (L : Layout) : L.dl ≤ L.dim ∧ L.dc ≤ L.dim ∧ L.d
   cases L with
   | mk dl dc q dn => cases q <;> simp [Layout.dim, Layout.dcov, Layout.cc, Layout.tc] <;> omega
 
-/-- SUKFCorrection::correctStep + getLikelihood on the supported part of the valid space. -/
-theorem sukfCorrect_safe (I : Layout) (K : Nat) (C : Layout) (cK : Nat) (M : MMod) (sub : Nat) (reduced : Bool)
-    (hv : sukfValid I K C cK M sub reduced) (hs : sukfSupported I) : (sukfCorrect I K C cK M sub reduced).Safe := by
+/-- one SUKF correction on an object in any state: consistent; the members afterwards are the old ones, the old
+    innovations with new propagated sigma points (innovation failed), or the matching pair of a successful correction -/
+theorem sukfStep_ok (mem : SUKFMem) (I : Layout) (K : Nat) (C : Layout) (cK : Nat) (M : MMod) (sub : Nat) (reduced : Bool)
+    (hv : sukfValid I K C cK M sub reduced) (hs : sukfSupported I) :
+    (sukfStep mem I K C cK M sub reduced).Safe ∧
+    ((sukfStep mem I K C cK M sub reduced).val.1 = mem ∨
+     (sukfStep mem I K C cK M sub reduced).val.1 = { mem with prop := ⟨M.O.dim, (I.dcov * 2 + 1) * K⟩ } ∨
+     (sukfStep mem I K C cK M sub reduced).val.1 = ⟨⟨M.O.dim, K⟩, ⟨M.O.dim, (I.dcov * 2 + 1) * K⟩⟩) := by
   obtain ⟨⟨hK, hIn, hId, hC, hcK, hLin, hOn, hOd, hp, hdc, hy⟩, hir, hsub, hrr⟩ := hv
   have hC' := hC.symm
   have hcK' := hcK.symm
@@ -202,40 +224,95 @@ theorem sukfCorrect_safe (I : Layout) (K : Nat) (C : Layout) (cK : Nat) (M : MMo
   have hsig := sigmaPoint_safe I K hId
   have hsv := sigmaPoint_val I K
   have hws : utWeightSize M.Lin.noiseless.dcov = I.dcov * 2 + 1 := by rw [hLin]; simp [utWeightSize]; omega
-  unfold sukfCorrect
+  unfold sukfStep
   simp only [safe_bind, val_bind, req, safe_mk_cons, safe_mk_nil, Cond.holds, and_true]
-  refine ⟨by omega, ?_⟩
   split
-  · simp [corrCopy]
+  · simp; omega
   · rename_i hmv
     have hmod : M.O.dim % sub = 0 := by simp at hmv; exact hmv.2
     simp only [safe_bind, val_bind, hsig, hsv, true_and]
     cases hpv : M.pvalid with
-    | false => simp [corrCopy]
+    | false => simp; omega
     | true =>
       simp only [Bool.not_true, Bool.false_eq_true, if_false, safe_bind, val_bind]
-      refine ⟨?_, ?_⟩
-      · simp [hws, hp, hdc, fI]
-        intro i hi
-        exact ⟨mul_block_le _ _ _ hi, hi⟩
-      · cases hiv : M.ivalid with
-        | false => simp [corrCopy]
-        | true =>
-          simp only [Bool.not_true, Bool.false_eq_true, if_false, safe_bind, val_bind, safe_pure, and_true, safe_forRange]
-          refine ⟨?_, ?_⟩
-          · intro i hi
-            have b1 := mul_block_le (I.dcov * 2 + 1) i K hi
-            have b2 := mul_block_le I.dcov i K hi
-            have hn : ∀ j, j < M.O.dim / sub → (sukfNoiseCov M.rr sub reduced j).Safe ∧ (sukfNoiseCov M.rr sub reduced j).val = ⟨sub, sub⟩ :=
-              fun j hj => sukfNoiseCov_ok M.rr sub reduced j M.O.dim hj hrr
-            have hd : ∀ j, j < M.O.dim / sub → sub * j + sub ≤ M.O.dim := fun j hj => div_block_le sub j M.O.dim hj
-            simp [hws, hp, hdc, fI, hir, gmMean, gmCov, directionalAdd, Layout.meanS, Layout.covS, hi]
-            refine ⟨by omega, ?_, by omega, by omega, by omega, by omega⟩
-            intro j hj
-            have := hn j hj
-            have := hd j hj
-            simp_all
-          · rw [hdc, hp, hir, Nat.add_zero]
-            exact sukfLikelihood_safe M.O.dim (I.dcov * 2 + 1) K M.rr sub reduced (by omega) (by omega) hrr
+      cases hiv : M.ivalid with
+      | false =>
+        simp only [Bool.not_false, if_true, safe_pure, val_pure, and_true]
+        refine ⟨⟨by omega, ?_⟩, Or.inr (Or.inl ?_)⟩
+        · simp [hws, hp, hdc, fI]
+          intro i hi
+          exact ⟨mul_block_le _ _ _ hi, hi⟩
+        · simp [hp, hdc]
+      | true =>
+        simp only [Bool.not_true, Bool.false_eq_true, if_false, safe_bind, val_bind, safe_pure, val_pure, and_true, safe_forRange]
+        refine ⟨⟨by omega, ?_, ?_⟩, Or.inr (Or.inr ?_)⟩
+        · simp [hws, hp, hdc, fI]
+          intro i hi
+          exact ⟨mul_block_le _ _ _ hi, hi⟩
+        · intro i hi
+          have b1 := mul_block_le (I.dcov * 2 + 1) i K hi
+          have b2 := mul_block_le I.dcov i K hi
+          have hn : ∀ j, j < M.O.dim / sub → (sukfNoiseCov M.rr sub reduced j).Safe ∧ (sukfNoiseCov M.rr sub reduced j).val = ⟨sub, sub⟩ :=
+            fun j hj => sukfNoiseCov_ok M.rr sub reduced j M.O.dim hj hrr
+          have hd : ∀ j, j < M.O.dim / sub → sub * j + sub ≤ M.O.dim := fun j hj => div_block_le sub j M.O.dim hj
+          simp [hws, hp, hdc, fI, hir, gmMean, gmCov, directionalAdd, Layout.meanS, Layout.covS, hi]
+          refine ⟨by omega, ?_, by omega, by omega, by omega, by omega⟩
+          intro j hj
+          have := hn j hj
+          have := hd j hj
+          simp_all
+        · simp [hp, hdc, hir]
+
+/-- SUKFCorrection::correctStep + getLikelihood on the supported part of the valid space. -/
+theorem sukfCorrect_safe (I : Layout) (K : Nat) (C : Layout) (cK : Nat) (M : MMod) (sub : Nat) (reduced : Bool)
+    (hv : sukfValid I K C cK M sub reduced) (hs : sukfSupported I) : (sukfCorrect I K C cK M sub reduced).Safe := by
+  obtain ⟨h1, h2⟩ := sukfStep_ok SUKFMem.init I K C cK M sub reduced hv hs
+  obtain ⟨⟨hK, _, _, _, _, _, _, _, _, _, _⟩, _, hsub, hrr⟩ := hv
+  unfold sukfCorrect
+  simp only [safe_bind, val_bind, safe_pure, and_true]
+  refine ⟨h1, ?_⟩
+  rcases h2 with h | h | h
+  · rw [h]; simp [SUKFMem.init, sukfLikelihood]
+  · rw [h]; simp [SUKFMem.init, sukfLikelihood]
+  · rw [h]; exact sukfLikelihood_safe M.O.dim (I.dcov * 2 + 1) K M.rr sub reduced (by omega) (by omega) hrr
+
+/-! ### call sequences on one object -/
+
+theorem ukfSeq_safe (additive : Bool) (I : Layout) (M : MMod) (hs : ukfSupported I M) (steps : List CStep) :
+    ∀ mem : UKFMem, ukfSeqValid additive I M steps → (ukfSeq additive I M mem steps).Safe := by
+  induction steps with
+  | nil => intro mem _; simp [ukfSeq]
+  | cons s ss ih =>
+    intro mem hv
+    have h := ukfStep_ok additive mem I s.K I s.K (M.withFlags s) (hv s List.mem_cons_self) hs
+    simp only [ukfSeq, safe_bind, val_bind, safe_pure, and_true]
+    refine ⟨h.1, ukfLik_safe (M.withFlags s) _ h.2, ih _ ?_⟩
+    intro x hx
+    exact hv x (List.mem_cons_of_mem _ hx)
+
+theorem wnaSeq_fold_safe (d : Dim) (nums : List Nat) : ∀ acc : List String,
+    (nums.foldlM (fun (acc : List String) n => do
+      let s ← wnaNoise (wnaCtor d).val n
+      let mot : Shape := ⟨d.n, n⟩
+      additiveMotion (wnaCtor d).val.F (wnaNoise (wnaCtor d).val) ⟨d.n, n⟩ mot
+      pure (acc ++ [s.str, mot.str])) acc : W (List String)).Safe := by
+  induction nums with
+  | nil => intro acc; simp
+  | cons n ns ih =>
+    intro acc
+    simp only [List.foldlM_cons, safe_bind, val_bind, safe_pure, val_pure, and_true]
+    refine ⟨?_, ih _⟩
+    cases d <;> simp [wnaNoise, additiveMotion, linPropagate, wnaCtor, ldltSqrt, Dim.n]
+
+theorem lmSeq_fold_safe (m : LM) (hm : m.sqrtR.c = m.R.r) (nums : List Nat) : ∀ acc : List String,
+    (nums.foldlM (fun (acc : List String) k => do
+      let s ← lmNoise m k
+      pure (acc ++ [s.str])) acc : W (List String)).Safe := by
+  induction nums with
+  | nil => intro acc; simp
+  | cons n ns ih =>
+    intro acc
+    simp only [List.foldlM_cons, safe_bind, val_bind, safe_pure, val_pure, and_true]
+    exact ⟨by simp [lmNoise, hm], ih _⟩
 
 end BFL.Bounds
